@@ -1,10 +1,14 @@
 /* C10 implementation driver: muggle heap and the five sorts.
  *
- *   sort <algo> <diff|nodiff> <n> k0 .. k(n-1)
+ *   sort <algo> <diff|nodiff|fail> <n> k0 .. k(n-1)
  *        -> [nodiff] / ret <0|1> / out id ..      (ids = positions in the input array)
+ *        mode fail: every malloc/realloc/calloc made by the sort fails
+ *   adv <algo> <n> <lo|hi> -> adv v0 .. v(n-1)   (generator pre-pass only: McIlroy's adversary - a comparator
+ *        that fixes the keys lazily - is run against the implementation; the keys it ends up with are printed)
  *   heap <cap> <nkeys> k1 .. kn                   (key objects 1..n; id 0 is NULL)
  *        -> init <0|1> / dump
- *   ins <kid> <vid>   -> ins <0|1> / dump
+ *   ins <kid> <vid> [F] -> ins <0|1> / dump       (F: every allocation made by this call fails)
+ *   ens <cap> [F]     -> ens <0|1> / dump           (muggle_heap_ensure_capacity)
  *   ext               -> ext 0 | ext 1 kid:vid / dump
  *   root              -> root - | root kid:vid
  *   find <kid>        -> find <index of returned node, 0 = NULL>
@@ -20,6 +24,20 @@
 #include "muggle/c/dsaa/sort.h"
 
 typedef struct { int key; int id; } kobj_t;
+
+/* ---- allocation failure switch (-Wl,--wrap=malloc,--wrap=realloc,--wrap=calloc) ---- */
+static int g_fail_alloc;
+void *__real_malloc(size_t n);
+void *__real_realloc(void *p, size_t n);
+void *__real_calloc(size_t a, size_t b);
+void *__wrap_malloc(size_t n) { return g_fail_alloc ? NULL : __real_malloc(n); }
+void *__wrap_realloc(void *p, size_t n) { return g_fail_alloc ? NULL : __real_realloc(p, n); }
+void *__wrap_calloc(size_t a, size_t b) { return g_fail_alloc ? NULL : __real_calloc(a, b); }
+static int has_F(const char *line)
+{
+	size_t n = strlen(line);
+	return n >= 2 && line[n - 1] == 'F' && line[n - 2] == ' ';
+}
 
 static int cmp_kobj(const void *a, const void *b)
 {
@@ -54,7 +72,9 @@ static void do_sort(char *line)
 	else if (strcmp(algo, "merge") == 0) f = muggle_merge_sort;
 	else if (strcmp(algo, "quick") == 0) f = muggle_quick_sort;
 	if (f == NULL) { printf("?\n"); free(ptr); free(elems); return; }
+	g_fail_alloc = strcmp(mode, "fail") == 0;
 	bool ret = f(ptr, (size_t)n, cmp_kobj);
+	g_fail_alloc = 0;
 	printf("ret %d\nout", ret ? 1 : 0);
 	for (long i = 0; i < n; i++) {
 		char *q = (char *)ptr[i];
@@ -64,6 +84,56 @@ static void do_sort(char *line)
 			printf(" ?");
 	}
 	printf("\n");
+	free(ptr);
+	free(elems);
+}
+
+/* ------------------------------------------------------------- adversary */
+/* M. D. McIlroy, "A killer adversary for quicksort": items start as "gas"; a comparison of two gas
+ * items freezes one of them (the current pivot candidate if it takes part) to the next solid value. */
+static int *adv_val, adv_gas, adv_nsolid, adv_cand, adv_dir;
+static int cmp_adv(const void *a, const void *b)
+{
+	if (a == NULL || b == NULL) abort();
+	int x = ((const kobj_t *)a)->id, y = ((const kobj_t *)b)->id;
+	if (adv_val[x] == adv_gas && adv_val[y] == adv_gas) {
+		if (x == adv_cand) adv_val[x] = adv_nsolid; else adv_val[y] = adv_nsolid;
+		adv_nsolid += adv_dir;
+	}
+	if (adv_val[x] == adv_gas) adv_cand = x;
+	else if (adv_val[y] == adv_gas) adv_cand = y;
+	return adv_val[x] < adv_val[y] ? -1 : (adv_val[x] > adv_val[y] ? 1 : 0);
+}
+/* adv <algo> <n> <lo|hi>: lo = gas is +infinity, pivots become the smallest keys (McIlroy's original);
+ * hi = the mirror adversary, gas is -infinity and pivots become the largest keys */
+static void do_adv(char *line)
+{
+	char algo[32], dir[32];
+	long n = 0;
+	if (sscanf(line, "%*s %31s %ld %31s", algo, &n, dir) < 3 || n < 0 || n > 100000) { printf("?\n"); return; }
+	muggle_func_sort f = NULL;
+	if (strcmp(algo, "insertion") == 0) f = muggle_insertion_sort;
+	else if (strcmp(algo, "shell") == 0) f = muggle_shell_sort;
+	else if (strcmp(algo, "heap") == 0) f = muggle_heap_sort;
+	else if (strcmp(algo, "merge") == 0) f = muggle_merge_sort;
+	else if (strcmp(algo, "quick") == 0) f = muggle_quick_sort;
+	if (f == NULL) { printf("?\n"); return; }
+	kobj_t *elems = (kobj_t *)malloc(sizeof(kobj_t) * (size_t)n);
+	void **ptr = (void **)malloc(sizeof(void *) * (size_t)n);
+	adv_val = (int *)malloc(sizeof(int) * (size_t)(n + 1));
+	if (strcmp(dir, "hi") == 0) { adv_dir = -1; adv_gas = -1; adv_nsolid = (int)n - 1; }
+	else { adv_dir = 1; adv_gas = (int)n; adv_nsolid = 0; }
+	adv_cand = 0;
+	for (long i = 0; i < n; i++) { elems[i].key = 0; elems[i].id = (int)i; ptr[i] = &elems[i]; adv_val[i] = adv_gas; }
+	f(ptr, (size_t)n, cmp_adv);
+	/* items the code never compared with another undetermined item are still gas: they are beyond every
+	 * solid key; give them distinct keys there (any order among them is consistent with the answers given) */
+	for (long i = 0; i < n; i++)
+		if (adv_val[i] == adv_gas) { adv_val[i] = adv_nsolid; adv_nsolid += adv_dir; }
+	printf("adv");
+	for (long i = 0; i < n; i++) printf(" %d", adv_val[i]);
+	printf("\n");
+	free(adv_val); adv_val = NULL;
 	free(ptr);
 	free(elems);
 }
@@ -98,6 +168,7 @@ static int vid_of(void *v)
 static void dump(void)
 {
 	printf("heap %llu %llu :", (unsigned long long)heap.size, (unsigned long long)heap.capacity);
+	if (heap.nodes == NULL) { printf(" nodes=NULL\n"); return; }
 	for (uint64_t i = 1; i <= heap.size; i++)
 		printf(" %d:%d", kid_of(heap.nodes[i].key), vid_of(heap.nodes[i].value));
 	printf("\n");
@@ -105,13 +176,13 @@ static void dump(void)
 
 static void heap_cleanup(void)
 {
-	if (have_heap) muggle_heap_destroy(&heap, NULL, NULL, NULL, NULL);
+	if (have_heap && heap.nodes != NULL) muggle_heap_destroy(&heap, NULL, NULL, NULL, NULL);
 	have_heap = 0;
 	free(keys); keys = NULL;
 	free(vals); vals = NULL;
 }
 
-static void case_begin(void) { have_heap = 0; keys = NULL; vals = NULL; nkeys = 0; }
+static void case_begin(void) { have_heap = 0; keys = NULL; vals = NULL; nkeys = 0; g_fail_alloc = 0; }
 static void case_end(void) { heap_cleanup(); }
 
 static void case_line(char *line)
@@ -121,6 +192,7 @@ static void case_line(char *line)
 	if (sscanf(line, "%31s", op) != 1) return;
 	if (strcmp(op, "sorts") == 0) return;   /* header line of a case made of sort lines */
 	if (strcmp(op, "sort") == 0) { do_sort(line); return; }
+	if (strcmp(op, "adv") == 0) { do_adv(line); return; }
 	if (strcmp(op, "heap") == 0) {
 		heap_cleanup();
 		long cap = 0;
@@ -142,8 +214,17 @@ static void case_line(char *line)
 	sscanf(line, "%*s %ld %ld", &a, &b);
 	if (strcmp(op, "ins") == 0) {
 		if (a < 1 || a > nkeys || b < 0 || b >= NVALS) { printf("?\n"); return; }
+		g_fail_alloc = has_F(line);
 		bool r = muggle_heap_insert(&heap, &keys[a], b == 0 ? NULL : (void *)&vals[b]);
+		g_fail_alloc = 0;
 		printf("ins %d\n", r ? 1 : 0);
+		dump();
+	} else if (strcmp(op, "ens") == 0) {
+		if (a < 0) { printf("?\n"); return; }
+		g_fail_alloc = has_F(line);
+		bool r = muggle_heap_ensure_capacity(&heap, (size_t)a);
+		g_fail_alloc = 0;
+		printf("ens %d\n", r ? 1 : 0);
 		dump();
 	} else if (strcmp(op, "ext") == 0) {
 		muggle_heap_node_t nd = { NULL, NULL };
